@@ -39,26 +39,6 @@ def _cursor_kept_as_attribute(ctx: Context, cls_q: str, attrs: list[str]) -> Non
 
 
 def run(ctx: Context) -> None:
-    for q_, as_ in ((HS, ["_sequence_index"]), (RS, ["_sequence_index", "_sequence_start"])):
-        try:
-            _cursor_kept_as_attribute(ctx, q_, as_)
-        except AnalysisError as exc:
-            ctx.undecided.append(f"C13/cursor: {exc}")
-            which = ("halton", HS) if q_ == HS else ("rseq", RS)
-            ctx.skip_groups = getattr(ctx, "skip_groups", set()) | {which[0]}
-    skip = getattr(ctx, "skip_groups", set())
-    if "halton" in skip or "rseq" in skip:
-        if "halton" not in skip:
-            ctx.rule(halton_cursor)
-            ctx.rule(reseed, HS, ["_sequence_index"])
-        ctx.rule(halton_function)
-        if "rseq" not in skip:
-            ctx.rule(rseq_cursor)
-            ctx.rule(reseed, RS, ["_sequence_index", "_sequence_start"])
-            ctx.rule(rseq_scalars)
-        ctx.rule(plumbing)
-        ctx.rule(prime_cache)
-        return
     ctx.rule(halton_cursor)
     ctx.rule(halton_function)
     ctx.rule(rseq_cursor)
@@ -126,6 +106,7 @@ def cursor_rule(ctx: Context, f: FuncInfo, attr: str, start_expr: ast.expr, coun
 
 
 def halton_cursor(ctx: Context) -> None:
+    _cursor_kept_as_attribute(ctx, HS, ["_sequence_index"])
     f = ctx.func(f"{HS}._halton")
     calls = [c for c in calls_in(f.node) if any(isinstance(t, FuncInfo) and t.qualname == "black_it.samplers.halton:halton" for t in ctx.prog.resolve_call(f, c))]
     ctx.floor("R1", "halton() call in HaltonSampler._halton", len(calls), 1)
@@ -247,6 +228,7 @@ def halton_function(ctx: Context) -> None:
 
 
 def rseq_cursor(ctx: Context) -> None:
+    _cursor_kept_as_attribute(ctx, RS, ["_sequence_index", "_sequence_start"])
     f = ctx.func(f"{RS}._r_sequence")
     n = normaliser(ctx.prog, f)
     ar = [c for c in calls_in(f.node) if (dotted(c.func) or "").endswith("arange") and len(c.args) == 2 and "_sequence_index" in str(n.rat(c.args[0]))]
@@ -267,6 +249,7 @@ def rseq_cursor(ctx: Context) -> None:
 
 
 def reseed(ctx: Context, cls_q: str, attrs: list[str]) -> None:
+    _cursor_kept_as_attribute(ctx, cls_q, attrs)
     prog = ctx.prog
     cls = prog.find_class(cls_q.split(":")[1])
     srs = cls.methods.get("_set_random_state")
@@ -375,6 +358,7 @@ def _fold(prog, f: FuncInfo, e: ast.expr | None):
 
 
 def rseq_scalars(ctx: Context) -> None:
+    _cursor_kept_as_attribute(ctx, RS, ["_sequence_index", "_sequence_start"])
     """phi_d is the fixed point of x -> (1 + x)^(1/(d+1)), iterated from 2.0 until the value no longer changes (exact float equality).
     Two spellings of the same iteration are read: `while prev != x: prev = x; x = F(x)` and `while True: y = F(x); if y == x: return y; x = y`.
     The function may contain the iteration more than once (a helper read in place on several paths) and may keep results in a value-keyed memo:
